@@ -6,6 +6,18 @@ ROOT = os.path.dirname(os.path.dirname(os.path.abspath(__file__)))
 BASELINE_OFF = ("cd /repo && GOFLAGS=-mod=mod go build ./... && GOFLAGS=-mod=mod go test -json -vet=off -count=1 -timeout 25m ./...")
 
 CHECKS = {
+ "C13": dict(
+   technique="Coq proof (induction over the byte string) of go_eval(encode s)=s + exhaustive/differential check of encoder and Go-literal evaluator against the real generator and go/types",
+   text="Theorem C13_embed: for every byte string s without NUL (unbounded length) the Go constant expression emitted by the model of "
+        "encodeRawFileAsString evaluates under a model of Go's raw/interpreted string-literal rules to exactly s; C13_one_line_literal keeps the "
+        "declaration on one line. Tie on every run: the REAL Generate embeds each content (all 2801 strings of length<=4 over {`,\",\\,LF,CR,$,a}, "
+        "real specs in CRLF/one-line-JSON/no-trailing-newline forms, random text), the SpecFile constant of the written file is evaluated with "
+        "go/parser+go/types and compared with the model and with s; the literal evaluator itself is validated against go/types on synthetic literals. "
+        "The served half (GET <base>/<name>, middlewares bypassed, only when installed) is covered by the router model (C16 theorems) and its tie.",
+   note="Trusted: Coq kernel; extraction + driver.ml; Go harness; go/types as the judge of constant values. Modelled not verified: Go literal lexing "
+        "(validated every run against go/types), strings.NewReplacer on single-byte patterns. Domain: no NUL; bytes>=0x80 opaque (valid UTF-8 assumed). "
+        "gofmt preserving literal contents is checked per case, not proved.",
+   ref="DESIGN.md section 4 (C13)"),
  "C19": dict(
    technique="Coq proof (induction over invocation histories) + exhaustive differential check of the model against the real generator",
    text="Theorems C19_last_wins(_spec), C19_stale_gone, C19_wanted_rewritten, C19_foreign_untouched, C19_idempotent are proved in Coq for "
